@@ -1120,6 +1120,60 @@ def eval_batch(batch):
     return st
 
 
+def fork_map(func, items, procs=4):
+    """runlib.fork_map with the pipes drained BEFORE the children are reaped (runlib's version waits for the child to
+    exit first, which deadlocks once a result is larger than the pipe buffer: the child blocks in write())."""
+    import pickle
+    import select
+    import traceback
+    items = list(items)
+    results = [None] * len(items)
+    pending = list(enumerate(items))
+    running = {}      # read fd -> (index, pid, chunks)
+    while pending or running:
+        while pending and len(running) < procs:
+            i, it = pending.pop(0)
+            r, w = os.pipe()
+            sys.stdout.flush()
+            sys.stderr.flush()
+            pid = os.fork()
+            if pid == 0:
+                code = 0
+                try:
+                    os.close(r)
+                    try:
+                        payload = ('ok', func(it))
+                    except BaseException:  # noqa
+                        payload = ('exc', traceback.format_exc())
+                    with os.fdopen(w, 'wb') as f:
+                        pickle.dump(payload, f)
+                except BaseException:  # noqa
+                    code = 1
+                finally:
+                    os._exit(code)
+            os.close(w)
+            running[r] = (i, pid, [])
+        ready, _, _ = select.select(list(running), [], [], 1.0)
+        for r in ready:
+            data = os.read(r, 1 << 16)
+            i, pid, chunks = running[r]
+            if data:
+                chunks.append(data)
+                continue
+            os.close(r)
+            del running[r]
+            try:
+                os.waitpid(pid, 0)
+            except OSError:
+                pass
+            blob = b''.join(chunks)
+            kind, val = pickle.loads(blob) if blob else ('exc', 'child died without an answer')
+            if kind == 'exc':
+                raise RuntimeError('worker failed:\n' + val)
+            results[i] = val
+    return results
+
+
 def plan(ctx, scale=1.0):
     quick = ctx.tier == 'quick'
     rng = ctx.rng
@@ -1169,7 +1223,7 @@ def run(ctx, scale=1.0):
     for st in common.pmap(eval_batch, cpool + pool):
         st.merge_into(ctx)
     # process-mode runs fork real worker processes: not possible inside the (daemonic) pool workers
-    for st in runlib.fork_map(eval_batch, cmain + main, procs=4):
+    for st in fork_map(eval_batch, cmain + main, procs=4):
         st.merge_into(ctx)
     ctx.extra['hypotheses'] = {'NoCalc+acyclic (confluence theorems / K2)': ctx.dist.get('hyp_nocalc_acyclic:True', 0),
                                'not satisfied (calc_dep present): P and K1 only': ctx.dist.get('hyp_nocalc_acyclic:False', 0)}
